@@ -58,7 +58,7 @@ BRANCH_NAMES = ["origin/release/1.0", "origin/release/1.10", "origin/release/1.2
 # (a search text may span a line break of the message)
 # ... or be typed in the wrong case: it then occurs in no message and nothing is reported
 TEXTS = ["BUG-7", "BUG-71", "fix", "BUG-7 ", " change", "fix ", "\n\nrelated to BUG-7", "\nrelated", "bug-7", "Fix",
-         "Bug-71"]
+         "Bug-71", ""]      # (the empty text is in every message)
 
 
 def gen_history(rng, max_commits=25):
